@@ -43,10 +43,20 @@ CLASSES = [
     ('K', [], None, True, True),          # pg.Object with pg.typing.StrKey() fields
     ('call', ['fn'], None, True, True),   # symbolized function  call(fn, **kwargs)
     ('Node', [], None, False, True),      # symbolized class     Node(**kwargs); opt-out by default
+    # inheritance chains over `use_symbolic_comparison` (4th entry: the EFFECTIVE setting)
+    ('AF', ['x', 'y'], 0, False),         # A (True) -> sets False
+    ('AFT', ['x', 'y'], 11, True),        # A (True) -> AF (False) -> sets True again
+    ('AFTI', ['x', 'y'], 12, True),       # ... -> inherits True without restating it
+    ('NT', ['x'], 5, True),               # N (False) -> sets True
+    ('NI', ['x'], 5, False),              # N (False) -> inherits False without restating it
+    ('NodeT', [], None, True, True),      # symbolized class NodeT(**kwargs) with eq=True
 ]
+# classes with the same declared fields along one inheritance chain (variant 'subclass')
+FAMILIES = [(0, 1, 2, 11, 12, 13), (5, 14, 15), (10, 16)]
 SAME_QUALNAME = (6, 7)
 QUALS = (['_mk_env.<locals>.' + n for n in 'ABCDEN'] + ['_mk_env.<locals>.mk_q.<locals>.Q'] * 2
-         + ['_mk_env.<locals>.K', '_mk_env.<locals>.call', 'Node'])
+         + ['_mk_env.<locals>.K', '_mk_env.<locals>.call', 'Node']
+         + ['_mk_env.<locals>.' + n for n in ('AF', 'AFT', 'AFTI', 'NT', 'NI')] + ['NodeT'])
 
 
 def is_dyn(c):
@@ -107,7 +117,27 @@ def _mk_env():
     def __init__(self, **kwargs):
       self.kwargs = kwargs
 
-  classes = [A, B, C, D, E, N, mk_q(), mk_q(), K, call, Node]
+  class AF(A):
+    use_symbolic_comparison = False
+
+  class AFT(AF):
+    use_symbolic_comparison = True
+
+  class AFTI(AFT):
+    pass
+
+  class NT(N):
+    use_symbolic_comparison = True
+
+  class NI(N):
+    pass
+
+  @pg.symbolize(eq=True)
+  class NodeT:
+    def __init__(self, **kwargs):
+      self.kwargs = kwargs
+
+  classes = [A, B, C, D, E, N, mk_q(), mk_q(), K, call, Node, AF, AFT, AFTI, NT, NI, NodeT]
   for c, spec in zip(classes, CLASSES):
     name, fields, sc = spec[0], spec[1], spec[3]
     declared = [str(k) for k in c.__schema__.keys() if k.is_const]
@@ -644,7 +674,8 @@ class Gen:
       if malformed:
         return ['t', [sub() for _ in range(r.below(4))]]
       return ['t', [self.tuple_elem() for _ in range(r.below(4))]]
-    c = r.weighted([(5, 0), (2, 1), (2, 2), (2, 3), (2, 4), (1, 5), (2, 8), (2, 9), (1, 10)])
+    c = r.weighted([(5, 0), (2, 1), (2, 2), (2, 3), (2, 4), (1, 5), (2, 8), (2, 9), (1, 10),
+                    (1, 11), (2, 12), (1, 13), (2, 14), (1, 15), (1, 16)])
     kw = r.shuffle(KEYS)[:r.below(4)] if is_dyn(c) else []
     return ['o', c, [[['s', f], sub()] for f in CLASSES[c][1] + kw]]
 
@@ -770,14 +801,15 @@ class Gen:
           x[idx] = x[idx] + [self.atom()]
         return x
       return self.replace(d, p, f)
-    if kind == 'subclass':
-      ps = self.positions(d, lambda x: x[0] == 'o' and x[1] in (0, 1, 2))
+    if kind == 'subclass':      # another class of the same inheritance chain
+      fam = lambda c: next((f for f in FAMILIES if c in f), None)
+      ps = self.positions(d, lambda x: x[0] == 'o' and fam(x[1]))
       if not ps:
         return None
 
       def f(x):
-        c = r.choice([c for c in (0, 1, 2) if c != x[1]])
-        kvs = [kv for kv in x[2] if kv[0][1] in CLASSES[c][1]]
+        c = r.choice([c for c in fam(x[1]) if c != x[1]])
+        kvs = [kv for kv in x[2] if is_dyn(c) or kv[0][1] in CLASSES[c][1]]
         if c == 2 and r.chance(0.5):
           kvs = kvs + [[['s', 'z'], self.atom(False)]]
         return ['o', c, kvs]
@@ -847,6 +879,25 @@ class Gen:
       vals.append(v)
     return {'vals': vals, 'fam': 'kw+' + '+'.join(fam)}
 
+  def chain_case(self, n):
+    """Related values whose base is a top-level object of a class of one of the inheritance chains
+    over `use_symbolic_comparison` (so that `==`, `!=`, `hash()` are exercised on every such class)."""
+    r = self.r
+    self.tuple_kind = r.choice(['num', 'num', 'str'])
+    c = r.choice([c for f in FAMILIES for c in f])
+    sub = lambda: self.val(r.below(2)) if r.chance(0.4) else self.atom(False)
+    kw = r.shuffle(KEYS)[:r.below(3)] if is_dyn(c) else []
+    base = normalize(['o', c, [[['s', f], sub()] for f in CLASSES[c][1] + kw]])
+    vals, fam = [base], []
+    for i in range(n - 1):
+      src = vals[-1] if (i == 0 or r.chance(0.5)) else vals[0]
+      kind = r.weighted([(5, 'same'), (4, 'subclass'), (3, 'leaf'), (2, 'alias'), (2, 'permute')])
+      v = self.variant(src, kind)
+      v = normalize(v) if v is not None else json.loads(json.dumps(src))
+      fam.append(kind)
+      vals.append(v)
+    return {'vals': vals, 'fam': 'chain+' + '+'.join(fam)}
+
   def case(self, n, malformed=False):
     r = self.r
     self.tuple_kind = r.choice(['num', 'num', 'str'])
@@ -888,7 +939,7 @@ class Gen:
         new = [['s', k] for k in KEYS if ['s', k] not in fields]
         if new and (not fields or r.chance(0.3)):
           fields = fields + [r.choice(new)]
-      if r.chance(0.3) and CLASSES[node[1]][0] != 'Node':   # (Node: attributes are not symbolic fields)
+      if r.chance(0.3) and CLASSES[node[1]][0] not in ('Node', 'NodeT'):   # (symbolized classes: attributes are not fields)
         op.update(kind='setattr', a={'k': r.choice(fields), 'v': W()})
       else:
         ks = r.shuffle(fields)[:r.randint(1, min(2, len(fields)))]
@@ -1061,7 +1112,10 @@ class C06(Prop):
           'object fields) against schema-less pg.Dict / plain dicts (flip); objects of three classes with a '
           'variable-key schema (pg.Object with StrKey fields, symbolized function call(fn, **kwargs), '
           'symbolized class Node(**kwargs)) with the keyword fields permuted / renamed, also in a dedicated '
-          'stream; '
+          'stream; inheritance chains over use_symbolic_comparison (True -> False -> True -> inherited, '
+          'False -> True, False -> inherited, symbolized classes with eq unset / True) as top-level values in '
+          'a dedicated stream, with ==, != and hash() required to agree with pg.eq / pg.ne / pg.hash where the '
+          'effective setting is True and to be identity-based where it is False; '
           'a stream of values with a history: a value is built, eq / ne / lt / gt / hash / == / hash() are '
           'evaluated on it against its partners, 1-3 writes are applied to its symbolic nodes (setitem, '
           'setattr, del, pop, update, clear, append, insert, extend, sort, reverse, rebind on the node or '
@@ -1103,6 +1157,9 @@ class C06(Prop):
     # dedicated stream: objects with keyword fields / dicts bound to a schema at the top
     for _ in range(400 if tier == 'quick' else 20000):
       yield g.kw_case(rng.randint(2, 3))
+    # dedicated stream: top-level objects of the inheritance chains over use_symbolic_comparison
+    for _ in range(400 if tier == 'quick' else 20000):
+      yield g.chain_case(rng.randint(2, 3))
     # dedicated stream: two classes with one qualname
     for _ in range(20 if tier == 'quick' else 200):
       x = normalize(['o', rng.choice(SAME_QUALNAME), [[['s', 'x'], g.atom(False)]]])
@@ -1185,7 +1242,15 @@ class C06(Prop):
     out = {'model': {'eq': mat(pg.eq), 'ne': mat(pg.ne), 'lt': mat(pg.lt), 'gt': mat(pg.gt)}}
     out['hash'] = [_res(pg.hash, v) for v in vals]
     out['hash_copy'] = [_res(pg.hash, v) for v in copies]
-    opt_in = [isinstance(v, pg.Object) and type(v).use_symbolic_comparison for v in vals]
+    # the EFFECTIVE setting of use_symbolic_comparison of the class of a top-level object, from the
+    # harness's class table (None: not an object)
+    eff = [CLASSES[e['classes'].index(type(v))][3] if isinstance(v, pg.Object) else None for v in vals]
+    opt_in = [x is True for x in eff]
+    # opt-out classes: `==` / `!=` / `hash()` are those of `object` (identity)
+    out['op_ident'] = [
+        [_res(lambda a: a == a, v), _res(lambda a: a != a, v), _res(lambda a: hash(a) == object.__hash__(a), v),
+         [_res(lambda a, b: a == b, v, w) for w in copies], [_res(lambda a, b: a != b, v, w) for w in copies]]
+        if x is False else None for v, x in zip(vals, eff)]
     out['op_eq'] = [[_res(lambda a, b: a == b, vals[i], copies[j]) if opt_in[i] else None
                      for j in range(n)] for i in range(n)]
     out['op_ne'] = [[_res(lambda a, b: a != b, vals[i], copies[j]) if opt_in[i] else None
@@ -1337,6 +1402,15 @@ class C06(Prop):
           return fail('operator-eq-disagrees', '(v%d == v%d) = %s, pg.eq = %s' % (i, j, out['op_eq'][i][j], eq[i][j]))
         if out['op_ne'][i][j] is not None and out['op_ne'][i][j] != ne[i][j]:
           return fail('operator-ne-disagrees', '(v%d != v%d) = %s, pg.ne = %s' % (i, j, out['op_ne'][i][j], ne[i][j]))
+    # ---- operators of classes that opt out: identity --------------------------------------------
+    for i in R:
+      o = (out.get('op_ident') or [None] * n)[i]
+      if o is not None:
+        want = [True, False, True, [False] * n, [True] * n]
+        if o != want:
+          return fail('operator-identity-disagrees',
+                      'v%d is an object of a class whose use_symbolic_comparison is False, but [v == v, v != v, '
+                      'hash(v) == object.__hash__(v), [v == other objects], [v != other objects]] = %s' % (i, o))
     return None
 
   def history_laws(self, case, out):
